@@ -210,7 +210,7 @@ struct Env10<'a> {
 
 fn check_base(e: &mut Env10, argv: &[Tok], only: Option<(usize, &str)>, ctx: &mut Ctx) {
     let dd = argv.iter().position(|x| x.0 == b"--").unwrap_or(argv.len());
-    let tokens: Vec<&str> = if e.u.custom_help { vec!["--ayuda", "-?", "--help"] } else { vec!["--help", "-h", "--version", "-V"] };
+    let tokens: Vec<&str> = if e.u.custom_help { vec!["--ayuda", "-п", "--help"] } else { vec!["--help", "-h", "--version", "-V"] };
     for pos in 0..=dd {
         for token in &tokens {
             if let Some((p0, t0)) = only {
@@ -239,7 +239,7 @@ fn check_base(e: &mut Env10, argv: &[Tok], only: Option<(usize, &str)>, ctx: &mu
                         } else {
                             let key = (path.clone(), token.to_string());
                             let canon_token = match *token {
-                                "-h" | "--ayuda" | "-?" => if e.u.custom_help { "--ayuda" } else { "--help" },
+                                "-h" | "--ayuda" | "-п" => if e.u.custom_help { "--ayuda" } else { "--help" },
                                 "-V" => "--version",
                                 t => t,
                             };
@@ -416,7 +416,7 @@ fn run_u(u: &Unit, unit: &Value, only: Option<(&[Tok], usize, &str)>, ctx: &mut 
     };
     if u.custom_help {
         fn custom(o: &mut Opts) {
-            o.cfg.help_names = Some(Names { shorts: vec!['?'], longs: vec!["ayuda".into()], envs: vec![], help: Some(DocSpec::plain("muestra ayuda")), long_first: false });
+            o.cfg.help_names = Some(Names { shorts: vec!['п'], longs: vec!["ayuda".into()], envs: vec![], help: Some(DocSpec::plain("muestra ayuda")), long_first: false });
             fn walk(p: &mut P) {
                 match p {
                     P::Cmd { inner, .. } => custom(inner),
@@ -436,7 +436,7 @@ fn run_u(u: &Unit, unit: &Value, only: Option<(&[Tok], usize, &str)>, ctx: &mut 
     let mut e = Env10 { u, unit, p: &p, model: u.level.as_ref().map(Model::new), help_cache: BTreeMap::new(), top_help: None };
     if u.custom_help {
         if let Some(m) = &mut e.model {
-            m.flags.push('?');
+            m.flags.push('п');
         }
     }
     if let Some((base, pos, token)) = only {
